@@ -117,9 +117,26 @@ EditsB1 == {[path |-> r[1], kind |-> "remove", val |-> "", ok |-> FALSE] : r \in
 IsPrefix(a, b) == Len(a) <= Len(b) /\ SubSeq(b, 1, Len(a)) = a
 Indep(e1, e2) == ~IsPrefix(e1.path, e2.path) /\ ~IsPrefix(e2.path, e1.path)
 
+(***************************************************************************)
+(* The anti-XSSI prefix )]}'\n : accepted exactly as it is and changing      *)
+(* nothing else.  Variants of the prefix bytes in front of a valid document *)
+(* (every single-bit flip, every truncation, doubled, absent) are accepted  *)
+(* iff they are the prefix itself or nothing; alone they are never a        *)
+(* document.                                                                *)
+(***************************************************************************)
+Prefix == <<41, 93, 125, 39, 10>>
+Pow2(b) == CASE b = 0 -> 1 [] b = 1 -> 2 [] b = 2 -> 4 [] b = 3 -> 8 [] b = 4 -> 16 [] b = 5 -> 32 [] b = 6 -> 64 [] OTHER -> 128
+FlipBit(x, b) == IF (x \div Pow2(b)) % 2 = 1 THEN x - Pow2(b) ELSE x + Pow2(b)
+PrefixVariants == {[Prefix EXCEPT ![i] = FlipBit(Prefix[i], b)] : i \in 1..5, b \in 0..7}
+                  \cup {SubSeq(Prefix, 1, n) : n \in 0..5} \cup {Prefix \o Prefix, Prefix \o <<10>>, <<10>> \o Prefix}
+\* (JSON allows white space before the document, so the prefix followed by white space is still the prefix)
+JsonWs == {9, 10, 13, 32}
+PrefixOk(v) == v = <<>> \/ (Len(v) >= 5 /\ SubSeq(v, 1, 5) = Prefix /\ \A i \in 6..Len(v) : v[i] \in JsonWs)
+
 CONSTANT Pairs       \* TRUE: also every pair of independent edits
 VARIABLES base, edits
 Init == \/ (base \in {"b2", "b3"} /\ edits = <<>>)
+        \/ (base = "pfx" /\ \E v \in PrefixVariants, alone \in BOOLEAN : edits = <<[bytes |-> v, alone |-> alone]>>)
         \/ (base = "b1" /\ edits = <<>>)
         \/ (base = "b1" /\ \E e \in EditsB1 : edits = <<e>>)
         \/ (Pairs /\ base = "b1" /\ \E e1 \in EditsB1, e2 \in EditsB1 : Indep(e1, e2) /\ edits = <<e1, e2>>)
@@ -142,9 +159,12 @@ FullUrls(doc) ==
   IN [n \in 1..(Len(cbs) * Len(pks)) |->
         cbs[((n - 1) \div Len(pks)) + 1].codebase \o pks[((n - 1) % Len(pks)) + 1].name]
 
-Emit == PrintT("DOC " \o ToJson([base |-> base, nedits |-> Len(edits), valid |-> Valid, doc |-> DocOf,
+Emit == IF base = "pfx"
+          THEN PrintT("DOC " \o ToJson([base |-> base, nedits |-> 1, bytes |-> edits[1].bytes, alone |-> edits[1].alone,
+                                        valid |-> ~edits[1].alone /\ PrefixOk(edits[1].bytes)]))
+          ELSE PrintT("DOC " \o ToJson([base |-> base, nedits |-> Len(edits), valid |-> Valid, doc |-> DocOf,
                                  ignored |-> IgnoredKeys,
                                  urlsKnown |-> UrlsKnown, urls |-> IF UrlsKnown THEN FullUrls(DocOf) ELSE <<>>]))
 \* law of the model: independent edits commute
-Laws == Len(edits) = 2 => ApplyAll(Bases[base], <<edits[2], edits[1]>>) = DocOf
+Laws == (base # "pfx" /\ Len(edits) = 2) => ApplyAll(Bases[base], <<edits[2], edits[1]>>) = DocOf
 =============================================================================
